@@ -137,7 +137,15 @@ class Driver(object):
     from scales.sink import ClientMessageSinkStack
     arg = 'arg-%s' % name
     msg = MethodCallMessage(None, 'hi', (arg,), {})
-    stack = ClientMessageSinkStack()
+    class CountingStack(ClientMessageSinkStack):
+      # observation only: how many times the transport completed this request (a second completion is absorbed by
+      # the real stack because it is empty by then, but it is still the transport answering twice)
+      completions = 0
+
+      def AsyncProcessResponse(self2, stream, msg):
+        self2.completions += 1
+        ClientMessageSinkStack.AsyncProcessResponse(self2, stream, msg)
+    stack = CountingStack()
     stack.Push(self.term, name)
     payload = thrift_payload(arg)
     rec = {'name': name, 'arg': arg, 'stack': stack, 'msg': msg, 'issued': self.lp.now(), 'deadline': deadline, 'evt': None,
@@ -221,6 +229,9 @@ class Driver(object):
       rs = self.responses(name)
       if len(rs) > 1:
         self.v('C08.answered-twice', 'request %s received %d responses: %s' % (name, len(rs), [self._desc(x) for x in rs]))
+      elif r['stack'].completions - (1 if r['timed_out'] else 0) > 1:
+        self.v('C08.answered-twice', 'the transport completed request %s %d times (first: %s)'
+               % (name, r['stack'].completions - (1 if r['timed_out'] else 0), [self._desc(x) for x in rs]))
     state = sink.state
     live = [c for c in self.net.conns if c.state == 'established' and not c.client_closed]
     usable = [c for c in live if not c.reset and not c.eof and not c.stalled]
